@@ -42,7 +42,7 @@ def batches(scratch, tier="thorough"):
                             functions=["collective::%s::{from_version_%s, to_version_%s}" % (fam, v[1:], v[1:]),
                                        "CollectiveMessage::read_protocol", "CollectiveMessage::write_protocol"])
     specs["verif_kani::c14_collective::c14_canary"] = dict(canary=True)
-    return [vlib.Batch("wow_login_messages", FEATURES, mods, specs, jobs=8, harness_timeout=(2400 if tier == "thorough" else 420))]
+    return [vlib.Batch("wow_login_messages", FEATURES, mods, specs, jobs=5, harness_timeout=(2400 if tier == "thorough" else 420))]
 
 
 def _excluded():
